@@ -4,6 +4,7 @@ import (
 	"errors"
 	"fmt"
 	"strings"
+	"sync/atomic"
 
 	"verif/mc/spec"
 )
@@ -105,9 +106,10 @@ func alphabetSweep[T comparable, P Object[T]](s *OS[T, P], states []spec.Assignm
 			continue
 		}
 		st := st
+		var nbad atomic.Int64
 		Parallel(len(abvs), 16, func(ai int) {
-			if s.R.TooMany() {
-				return
+			if s.R.TooMany() || nbad.Load() > 300 {
+				return // enough evidence from this state (every report re-executes the case: keep floods cheap)
 			}
 			abv := abvs[ai]
 			mi := ver.Index(abv)
@@ -147,7 +149,14 @@ func alphabetSweep[T comparable, P Object[T]](s *OS[T, P], states []spec.Assignm
 					}
 				}
 				if bad {
-					s.report(st, []string{"Set", abv, val}, PredIllegal, "alphabet", fmt.Sprintf("err=%v", err))
+					if nbad.Add(1) > 300 {
+						break
+					}
+					pr := PredIllegal
+					if checkErrKinds {
+						pr |= PredErrKind
+					}
+					s.report(st, []string{"Set", abv, val}, pr, "alphabet", fmt.Sprintf("err=%v", err))
 				}
 			}
 			s.R.Transitions.Add(trans)
